@@ -58,6 +58,7 @@ for _p in ("C01", "C03"):
     fixed("F49", _p, "23440b0", "C01.unit-merge|unit-merge|emit_instruction|Phi.1", "same defect, else input of the Phi")
     fixed("F50", _p, "a2c4d82", "C01.unit-merge|unit-merge|Switch-inputs|input", "`match t { 1 => bump(), _ => { x = x + 10.0 } }`: same panic in the Switch lowering for an arm without a value (findings/repro/F50_*.mmm)")
 fixed("F51", "C14", "0b515b8", "C14.keyword-space|kw|print_if_expr|If", "mimium-fmt printed `let y = if gate { 1.0 } else { 0.0 }` as `let y = ifgate { .. }` (keyword and an unparenthesised condition glued together: a different program); findings/repro/F51_*.mmm")
+fixed("F52", "C14", "74fa295", "C14.list-items|items|print_grouped_list", "mimium-fmt printed `fn f(x:float, g = 2.0, h)` as `fn f(x, :float, g, =2.0, h)`: the shared list printer skipped the comma tokens and put its own separator after every child, also inside a typed parameter or a default value (a different, unparsable program); findings/repro/F52_*.mmm")
 fixed("F21", "C01", "52a554f", "C01.ops|truthiness|JmpIfNeg|F64Const+F64Gt", "`if` on a NaN condition took the then-branch on the VM (cond <= 0.0 test) and the else-branch on WASM (cond > 0.0)")
 
 # ---- C01 operator templates ---------------------------------------------------------------------------
